@@ -15,6 +15,7 @@ FAdd(a, b)       == CHOOSE x \in {} : TRUE
 FSub(a, b)       == CHOOSE x \in {} : TRUE
 FMul(a, b)       == CHOOSE x \in {} : TRUE
 FDiv(a, b)       == CHOOSE x \in {} : TRUE
+FFma(a, b, c)    == CHOOSE x \in {} : TRUE   \* a*b + c with a single rounding
 FNeg(a)          == CHOOSE x \in {} : TRUE
 FAbs(a)          == CHOOSE x \in {} : TRUE
 FPow(a, b)       == CHOOSE x \in {} : TRUE
